@@ -70,6 +70,11 @@ type Counter struct {
 	next  atomic.Pointer[Counter]
 	state counterState
 	ptr   counterPtr
+
+	// registered is set once the counter is on file's list of counters.
+	// Until then the file cannot invalidate the counter's pointer,
+	// so the counter must not acquire one (see releaseLock).
+	registered atomic.Bool
 }
 
 func (c *Counter) Name() string {
@@ -243,6 +248,21 @@ func (c *Counter) releaseReader(state counterStateBits) {
 
 func (c *Counter) releaseLock(state counterStateBits) {
 	for ; ; state = c.state.load() {
+		if !c.registered.Load() {
+			// A goroutine that found c.next set skipped registration, but the
+			// goroutine that set it has not linked c into the file's list yet.
+			// A pointer acquired now could miss the invalidation of a concurrent
+			// rotation or growth and outlive its mapping. Unlock without a
+			// pointer and leave extra pending: the registering goroutine's own
+			// Add comes back here. If it got in between, flush on its behalf.
+			if !c.state.update(&state, state.clearLocked()) {
+				continue
+			}
+			if c.registered.Load() {
+				c.refresh()
+			}
+			return
+		}
 		if !state.havePtr() {
 			// Set havePtr before updating ptr,
 			// to avoid race with the next clear of havePtr.
